@@ -471,15 +471,15 @@ func TestEnumFirstTouch(t *testing.T) {
 			fmt.Fprintln(os.Stderr, "INFRASTRUCTURE:", err)
 			os.Exit(3)
 		}
-		// Two fresh processes per unit: with 2 goroutines per program (the race detector keeps
-		// the last four accesses of a memory word: with few goroutines a once-only write is
-		// still on record when the second goroutine arrives) and with 8.
-		for _, n := range []int{2, firstTouchGoroutines} {
+		// Three fresh processes per unit: two with 2 goroutines per program (the race detector
+		// keeps the last four accesses of a memory word: with few goroutines a once-only write
+		// is most likely still on record when the second goroutine arrives) and one with 8.
+		for k, n := range []int{2, firstTouchGoroutines, 2} {
 			u.N = n
 			ub, _ := json.Marshal(u)
 			dir := ""
 			if out := ev.OutDir(); out != "" {
-				dir = filepath.Join(out, fmt.Sprintf("unit%d-%d", i, n))
+				dir = filepath.Join(out, fmt.Sprintf("unit%d-%d", i, k))
 				os.MkdirAll(dir, 0o755)
 			}
 			cmd := exec.Command(exe, "-test.run", "^TestFirstTouchChild$", "-test.timeout", "600s")
